@@ -1,13 +1,26 @@
 """One concurrent-push run against a real event-loop reactor (C11).  Separate process per run
 because the reactors keep process-global loops.
 
-    reactor_push.py <repo> <asyncio|twisted> <seed> <nthreads> <nmsgs> <inject 0|1> <out.json>
+    reactor_push.py <repo> <asyncio|twisted> <seed> <nthreads> <nmsgs> <inject 0|1> <out.json> [slow 0|1] [wide 0|1]
 
 A loopback peer thread records every byte it receives.  N threads push framed messages
 ``MAGIC tid seq len filler`` through ``conn.push``; the peer's byte stream is parsed back.
 With inject=1, sys.monitoring LINE events restricted to the reactor's push path call
 ``time.sleep(0)`` with a seeded probability (only at statement starts, where CPython could
 switch threads anyway).
+
+wide=1 adds to the thread pushers
+  * a few very large messages (128 KiB .. 1 MiB, on and next to chunk-count boundaries) in the
+    plans of the thread pushers and of the loop-thread pusher;
+  * pusher L (tid 200): ``conn.push`` called ON THE REACTOR'S OWN THREAD, one message per loop
+    iteration while it is active (entered through call_soon_threadsafe / callFromThread, then
+    call_soon / callLater(0)).  It is active in short bursts kicked at seeded random times by a
+    feeder thread and - for most large messages - from just before a thread calls
+    ``conn.push(large)`` until LINGER loop iterations after that call returned;
+  * pusher E (tid 201): the peer echoes a byte for a seeded fraction of its reads; the reactor's
+    real read path (handle_read / dataReceived) calls ``process_io_buffer`` - replaced here by a
+    callback that pushes one message per byte read, the way response callbacks send follow-ups.
+The oracle is unchanged: the stream must parse into whole messages, each once, per pusher in order.
 """
 import json
 import random
@@ -20,9 +33,28 @@ import time
 repo, which, seed, nthreads, nmsgs, inject, out = sys.argv[1], sys.argv[2], int(sys.argv[3]), int(sys.argv[4]), int(sys.argv[5]), int(sys.argv[6]), sys.argv[7]
 # back-pressure: small kernel buffers on both ends and a peer that reads slowly, so that the reactor's writes are accepted partially
 SLOW = len(sys.argv) > 8 and sys.argv[8] == '1'
+WIDE = len(sys.argv) > 9 and sys.argv[9] == '1'
 sys.path.insert(0, repo)
 MAGIC = b'\xc1\x1c\xfa\xce'
+HDR = 13
 SIZES = [1, 13, 4095 - 13, 4096 - 13, 4097 - 13, 4096, 8193, 70000]
+# total message lengths (header included): 32 / 64 / 128 / 256 chunks of 4096 exactly and one byte more, 300 KiB, 1 MiB + 5
+LARGE_TOTALS = [131072, 131073, 262144, 262145, 300 * 1024, 524288, 524289, 1048576, 1048581]
+LARGE_MIN = 131072            # "large" in the counters: total length >= 128 KiB
+HUGE_MIN = 300 * 1024         # "300 KB or more"
+LOOP_SIZES = [1, 13, 64 - 13, 64 - 13, 200, 200, 4096 - 13, 4097 - 13, 8193]
+TID_L, TID_E = 200, 201
+LINGER = 300                  # loop iterations pusher L stays active after a large conn.push returned
+L_CAP = 600 if SLOW else 5000
+E_CAP = 300 if SLOW else 1500
+
+
+def fill(tid, seq):
+    return (tid * 31 + seq) & 0xff
+
+
+def message(tid, seq, size):
+    return MAGIC + struct.pack('>BII', tid, seq, size) + bytes([fill(tid, seq)]) * size
 
 
 def main():
@@ -34,9 +66,10 @@ def main():
     srv.listen(1)
     port = srv.getsockname()[1]
     received = bytearray()
-    state = {'closed': False, 'last': time.time()}
+    state = {'closed': False, 'last': time.time(), 'echo': WIDE, 'echoed': 0}
 
     def peer():
+        erng = random.Random(seed + 2)
         c, _ = srv.accept()
         c.settimeout(0.5)
         while not state['closed']:
@@ -52,22 +85,127 @@ def main():
                 break
             received.extend(b)
             state['last'] = time.time()
+            if state['echo'] and state['echoed'] < E_CAP and erng.random() < 0.35:
+                try:
+                    c.send(b'\x01')
+                    state['echoed'] += 1
+                except OSError:
+                    pass
     pt = threading.Thread(target=peer, daemon=True)
     pt.start()
 
     if which == 'asyncio':
-        from cassandra.io.asyncioreactor import AsyncioConnection as Cls
-        targets = [Cls.push, Cls._push_msg, Cls.handle_write]
+        from cassandra.io.asyncioreactor import AsyncioConnection as Base
+        targets = [Base.push, Base._push_msg, Base.handle_write]
     else:
-        from cassandra.io.twistedreactor import TwistedConnection as Cls
-        targets = [Cls.push]
+        from cassandra.io.twistedreactor import TwistedConnection as Base
+        targets = [Base.push]
+
+    # plans ---------------------------------------------------------------------------------------
+    plans = {}
+    for tid in range(nthreads):
+        r2 = random.Random(seed * 131 + tid)
+        plans[tid] = [r2.choice(SIZES) for _ in range(nmsgs)]
+    n_large_planned = 0
+    if WIDE:
+        r3 = random.Random(seed * 137 + 5)
+        huge = [t for t in LARGE_TOTALS if t >= HUGE_MIN]
+        if SLOW:
+            larges = [r3.choice([131073, 262145, 300 * 1024])]
+        else:
+            larges = [r3.choice(huge)] + [r3.choice(LARGE_TOTALS) for _ in range(r3.choice([1, 2, 3]))]
+        for tot in larges:
+            tid = r3.randrange(nthreads)
+            plans[tid].insert(r3.randrange(len(plans[tid]) + 1), tot - HDR)
+        n_large_planned = len(larges)
+        lplan = [r3.choice(LOOP_SIZES[:6] if SLOW else LOOP_SIZES) for _ in range(L_CAP)]
+        if not SLOW:        # the loop thread pushes a large message of its own, too
+            lplan[r3.randrange(5, 80)] = r3.choice(LARGE_TOTALS) - HDR
+            n_large_planned += 1
+        plans[TID_L] = lplan
+        plans[TID_E] = [r3.choice(LOOP_SIZES[:6]) for _ in range(E_CAP)]
+    pushed = {TID_L: 0, TID_E: 0}      # written on the reactor thread only
+    loop_errors = []
+    off_thread = [0]
+    loop_ident = [None]
+
+    class Cls(Base):
+        def process_io_buffer(self):        # called by the reactor's read path, on the reactor thread
+            buf = self._iobuf
+            n = buf.tell()
+            buf.seek(0)
+            buf.truncate()
+            if not WIDE or E['closed']:
+                return
+            for _ in range(n):
+                loop_push(self, TID_E)
+
+    E = {'closed': False}
+    L = {'hold': 0, 'linger': 0, 'spinning': False, 'closed': False}
+
+    def loop_push(c, tid):
+        seq = pushed[tid]
+        if seq >= len(plans[tid]):
+            return
+        if loop_ident[0] is None:
+            loop_ident[0] = threading.get_ident()
+        elif loop_ident[0] != threading.get_ident():
+            off_thread[0] += 1
+        pushed[tid] = seq + 1
+        try:
+            c.push(message(tid, seq, plans[tid][seq]))
+        except Exception as e:      # noqa
+            loop_errors.append('loop-thread push: %s: %s' % (type(e).__name__, e))
+
     Cls.initialize_reactor()
+    if which == 'asyncio':
+        def to_loop(fn, *a):
+            Cls._loop.call_soon_threadsafe(fn, *a)
+
+        def next_iteration(fn):
+            Cls._loop.call_soon(fn)
+    else:
+        from twisted.internet import reactor
+
+        def to_loop(fn, *a):
+            reactor.callFromThread(fn, *a)
+
+        def next_iteration(fn):
+            reactor.callLater(0, fn)
+
+    def l_tick():
+        if L['closed'] or (L['hold'] <= 0 and L['linger'] <= 0):
+            L['spinning'] = False
+            return
+        if L['hold'] <= 0:
+            L['linger'] -= 1
+        loop_push(conn, TID_L)
+        next_iteration(l_tick)
+
+    def l_start():
+        if not L['spinning'] and not L['closed']:
+            L['spinning'] = True
+            next_iteration(l_tick)
+
+    def l_hold():
+        L['hold'] += 1
+        l_start()
+
+    def l_release():
+        L['hold'] -= 1
+        L['linger'] = max(L['linger'], LINGER)
+        l_start()
+
+    def l_kick(n):
+        L['linger'] = max(L['linger'], n)
+        l_start()
+
     kw = {'sockopts': [(socket.SOL_SOCKET, socket.SO_SNDBUF, 4096)]} if SLOW else {}
     conn = Cls('127.0.0.1', port, protocol_version=4, connect_timeout=10, **kw)
     t0 = time.time()
     while which == 'twisted' and conn.transport is None and time.time() - t0 < 20:
         time.sleep(0.01)
-    res = {'reactor': which, 'seed': seed, 'threads': nthreads, 'msgs': nmsgs, 'inject': inject, 'slow_peer': SLOW}
+    res = {'reactor': which, 'seed': seed, 'threads': nthreads, 'msgs': nmsgs, 'inject': inject, 'slow_peer': SLOW, 'wide': WIDE}
     if which == 'twisted' and conn.transport is None:
         res['harness_error'] = 'twisted connection did not connect'
         json.dump(res, open(out, 'w'))
@@ -90,28 +228,62 @@ def main():
         mon.register_callback(3, mon.events.LINE, on_line)
         for fn in targets:
             mon.set_local_events(3, fn.__code__, mon.events.LINE)
-    plans = {}
-    expected = 0
-    for tid in range(nthreads):
-        r2 = random.Random(seed * 131 + tid)
-        sizes = [r2.choice(SIZES) for _ in range(nmsgs)]
-        plans[tid] = sizes
-        expected += sum(13 + s for s in sizes)
     errors = []
+    large_under_loop_pushes = [0]
 
     def pusher(tid):
+        r4 = random.Random(seed * 139 + tid)
         try:
             for seq, size in enumerate(plans[tid]):
-                body = bytes([(tid * 31 + seq) & 0xff]) * size
-                conn.push(MAGIC + struct.pack('>BII', tid, seq, size) + body)
+                m = message(tid, seq, size)
+                if WIDE and size + HDR >= LARGE_MIN and r4.random() < 0.8:
+                    large_under_loop_pushes[0] += 1
+                    to_loop(l_hold)
+                    try:
+                        conn.push(m)
+                    finally:
+                        to_loop(l_release)
+                else:
+                    conn.push(m)
         except Exception as e:      # noqa
             errors.append('%s: %s' % (type(e).__name__, e))
     ths = [threading.Thread(target=pusher, args=(t,)) for t in range(nthreads)]
+    feeding = [WIDE]
+
+    def feeder():
+        r5 = random.Random(seed * 149 + 3)
+        while feeding[0]:
+            to_loop(l_kick, r5.choice([1, 1, 2, 3, 8]))
+            time.sleep(r5.choice([0, 0.0002, 0.001, 0.003]))
+    ft = threading.Thread(target=feeder, daemon=True)
+    if WIDE:
+        ft.start()
     for t in ths:
         t.start()
     for t in ths:
         t.join(120)
     res['pushes_returned'] = not any(t.is_alive() for t in ths)
+    feeding[0] = False
+    if WIDE:
+        ft.join(5)
+        # let the bursts that are under way finish, then freeze both loop-thread pushers from the reactor thread itself
+        tl = time.time() + 5
+        while L['spinning'] and time.time() < tl:
+            time.sleep(0.005)
+        state['echo'] = False
+        time.sleep(0.05)
+        frozen = threading.Event()
+
+        def freeze():
+            L['closed'] = True
+            E['closed'] = True
+            frozen.set()
+        to_loop(freeze)
+        res['loop_unresponsive'] = not frozen.wait(20)
+        L['closed'] = E['closed'] = True
+    counts = {tid: len(plans[tid]) for tid in range(nthreads)}
+    counts.update({tid: pushed[tid] for tid in (TID_L, TID_E) if tid in plans})
+    expected = sum(HDR + s for tid, c in counts.items() for s in plans[tid][:c])
     # logical completion: all bytes arrived; lost messages show as a stall of the byte count
     state['last'] = time.time()
     deadline = time.time() + 120
@@ -119,12 +291,17 @@ def main():
         time.sleep(0.02)
     res['stalled'] = len(received) < 9 + expected
     state['closed'] = True
-    res['push_errors'] = errors[:3]
+    res['push_errors'] = (errors + loop_errors)[:3]
     res['expected_bytes'] = 9 + expected
     res['received_bytes'] = len(received)
     res['line_events'] = line_events[0]
     res['is_defunct'] = bool(conn.is_defunct)
     res['last_error'] = repr(conn.last_error) if conn.last_error else None
+    res['loop_pushes_off_loop_thread'] = off_thread[0]
+    if WIDE and loop_ident[0] is not None:
+        lt = Cls._loop_thread.ident if which == 'asyncio' else loop_ident[0]
+        if off_thread[0] or lt != loop_ident[0] or loop_ident[0] in [t.ident for t in ths] or loop_ident[0] == threading.main_thread().ident:
+            res['harness_error'] = 'the loop-thread pushers did not run on the reactor thread'
     # parse the stream
     data = bytes(received)
     problems = []
@@ -135,32 +312,56 @@ def main():
             problems.append('stream does not start with the v4 OPTIONS frame: %s' % data[:9].hex())
         p = 9
     nparsed = 0
+    large_ok = huge_ok = 0
+    loop_ok = {TID_L: 0, TID_E: 0}
     while p < len(data) and len(problems) < 5:
         if data[p:p + 4] != MAGIC:
             problems.append('message boundary lost at byte %d (%s)' % (p, data[p:p + 8].hex()))
             break
-        if p + 13 > len(data):
+        if p + HDR > len(data):
             problems.append('truncated message header at end of stream')
             break
-        tid, seq, size = struct.unpack('>BII', data[p + 4:p + 13])
-        body = data[p + 13:p + 13 + size]
+        tid, seq, size = struct.unpack('>BII', data[p + 4:p + HDR])
+        body = data[p + HDR:p + HDR + size]
         if len(body) < size:
             problems.append('truncated message tid=%d seq=%d at end of stream' % (tid, seq))
             break
-        if body != bytes([(tid * 31 + seq) & 0xff]) * size:
-            problems.append('message tid=%d seq=%d body interleaved/corrupted' % (tid, seq))
-        if tid not in plans or seq >= len(plans[tid]) or plans[tid][seq] != size:
+        whole = body == bytes([fill(tid, seq)]) * size
+        if not whole:
+            at = len(body) - len(body.lstrip(bytes([fill(tid, seq)])))
+            what = 'message tid=%d seq=%d (%d bytes) body interleaved/corrupted at body offset %d' % (tid, seq, HDR + size, at)
+            if body[at:at + 4] == MAGIC and at + HDR <= len(body):
+                t2, s2, z2 = struct.unpack('>BII', body[at + 4:at + HDR])
+                what += ': the header of message tid=%d seq=%d (%d bytes) is spliced in there' % (t2, s2, HDR + z2)
+            problems.append(what)
+        if tid not in plans or seq >= counts[tid] or plans[tid][seq] != size:
             problems.append('message tid=%d seq=%d size=%d was never pushed' % (tid, seq, size))
         else:
             last = seqs.get(tid, -1)
             if seq != last + 1:
-                problems.append('thread %d: seq %d after %d (%s)' % (tid, seq, last, 'duplicate/reordered' if seq <= last else 'gap'))
+                problems.append('pusher %d: seq %d after %d (%s)' % (tid, seq, last, 'duplicate/reordered' if seq <= last else 'gap'))
             seqs[tid] = seq
+            if whole:
+                if HDR + size >= LARGE_MIN:
+                    large_ok += 1
+                if HDR + size >= HUGE_MIN:
+                    huge_ok += 1
+                if tid in loop_ok:
+                    loop_ok[tid] += 1
         nparsed += 1
-        p += 13 + size
+        p += HDR + size
     res['messages_parsed'] = nparsed
-    res['messages_expected'] = nthreads * nmsgs
+    res['messages_expected'] = sum(counts.values())
     res['problems'] = problems
+    res['large_planned'] = n_large_planned
+    res['large_delivered'] = large_ok
+    res['huge_delivered'] = huge_ok
+    res['large_pushed_while_loop_thread_pushing'] = large_under_loop_pushes[0]
+    res['loop_thread_pushes'] = pushed[TID_L]
+    res['loop_thread_pushes_delivered'] = loop_ok[TID_L]
+    res['read_callback_pushes'] = pushed[TID_E]
+    res['read_callback_pushes_delivered'] = loop_ok[TID_E]
+    res['echo_bytes_sent_by_peer'] = state['echoed']
     json.dump(res, open(out, 'w'))
 
 
